@@ -99,6 +99,13 @@ def cmd_seeds():
         put('fuzz_cmd', '\n'.join(lines[i:i + 4]))
     put('fuzz_cmd', 'direct\n08b509020d01\n-s 10 08b5090d02\nstop\nfind')
     put('fuzz_cmd', 'listen\n\n\nlisten stop')
+    # histories of definitions: what is stored decides what a later define is compared with / replaces (plain vs chained, same ID)
+    put('fuzz_cmd', 'define "r,cir,chain,,,08,b509,0d77;0d77,,,UCH"\ndefine "r,cir,plain,,,08,b509,0d77,,,UCH"\nfind -a -c cir')
+    put('fuzz_cmd', 'define "r,cir,plain,,,08,b509,0d78,,,UCH"\ndefine -r "r,cir,chain,,,08,b509,0d78;0d78,,,UCH"\nread -f -c cir chain')
+    put('fuzz_cmd', 'define "r,cir,chain,,,08,b509,0d79;0d7a,,,UCH"\ndefine "r,cir,plain,,,08,b509,0d79,,,UCH"\ndefine -r "r,cir,chain,,,08,b509,0d79;0d7a,,,UIN"\nread -c cir plain')
+    put('fuzz_cmd', 'GET /data/cir/p?define=r,cir,p,,,08,b509,0d7b,v,,UCH HTTP/1.1\nGET /data/cir/q?define=r,cir,q,,,08,b509,0d7b;0d7b,v,,UCH HTTP/1.1\nGET /data/cir HTTP/1.1')
+    put('fuzz_cmd', 'define "w,cir,a,,,08,b509,0e7c,v,,UCH"\ndefine "w,cir,a,,,08,b509,0e7c,v,,UIN"\ndefine -r "w,cir,a,,,08,b509,0e7c,v,,UIN"\nwrite -c cir a 5\ndefine -r "u,cir,a,,,08,b509,0e7c,v,,UIN"')
+    put('fuzz_cmd', 'define "r,cir,chain,,,08,b509,0d7d;0d7e;0d7d,,,HEX:*"\ndefine -r "r,cir,chain,,,08,b509,0d7d;0d7d,,,HEX:*"\ndefine -r "r,cir,chain,,,08,b509,0d7d,,,HEX:*"\nread -f -c cir chain')
 
 
 DEFS = open(os.path.join(ROOT, '..', 'harness', 'fuzz_cmd.cpp')).read()
@@ -130,6 +137,19 @@ def csv_seeds():
         put('fuzz_csv', d)
         put('fuzz_csv', tmpl + '\x01' + d + '\x01\x0515;on;2;abc\n\x65\x50\x01\x00\xff')
     put('fuzz_csv', tmpl + '\x01' + hd + ''.join(x for x in defs if not x.startswith('type,')) + '\x01\x08abcdefgh')
+    # definitions that meet in the duplicate check / replacement: plain and chained with the same ID, equal names, equal IDs, both load modes (input length parity)
+    dups = [
+        'r,c1,chain,,,08,b509,0d01;0d01,,,UCH\nr,c1,plain,,,08,b509,0d01,,,UCH\n',
+        'r,c1,plain,,,08,b509,0d01,,,UCH\nr,c1,chain,,,08,b509,0d01;0d01,,,UCH\n',
+        'r,c1,chain,,,08,b509,0d01;0d02,,,UCH\nr,c1,plain,,,08,b509,0d01,,,UCH\nr,c1,chain2,,,08,b509,0d02;0d01,,,UCH\n',
+        'r,c1,a,,,08,b509,0d01,,,UCH\nr,c1,a,,,08,b509,0d02,,,UCH\nr,c1,b,,,08,b509,0d01,,,UIN\nw,c1,a,,,08,b509,0d01,,,UCH\nu,c1,a,,,08,b509,0d01,,,UCH\n',
+        'r,c1,chain,,,08,b509,0d01;0d01;0d01,,,HEX:*\nr,c1,chain,,,08,b509,0d01;0d01,,,HEX:*\nr,c2,chain,,,08,b509,0d01:2;0d01:3,,,HEX:*\n',
+        '[c]\nr,c1,c,,,08,b509,0d50,v,,UCH\n[c=1]r,c1,x,,,08,b509,0d51;0d51,v,,UCH\n[c=2]r,c1,x,,,08,b509,0d51,v,,UCH\nr,c1,y,,,08,b509,0d51,v,,UCH\n',
+    ]
+    for d in dups:
+        for pad in ('', '# \n'):
+            put('fuzz_csv', hd + pad + d)
+            put('fuzz_csv', tmpl + '\x01' + hd + pad + d + '\x01\x0501\n')
 
 
 def codec_seeds():
